@@ -10,8 +10,28 @@ INS = "django_components.dependencies:_insert_js_css_to_default_locations"
 OI = TOpt(TInt)
 
 
-def _tag(tx):
+def _raw_tag(tx):
     return z3.SubString(tx, 2, 4)
+
+
+def _tag(tx):
+    """the tag name the code compares: match[0][2:6].lower()"""
+    from pyvc import ops as _ops
+    return _ops.str_lower(_raw_tag(tx))
+
+
+def _case_variants(word):
+    import itertools
+    return sorted({"".join(p) for p in itertools.product(*[(ch.lower(), ch.upper()) for ch in word])})
+
+
+VARIANTS = _case_variants("head") + _case_variants("body")
+
+
+def _lower_ground_facts():
+    """A-PY (str.lower on constants, evaluated by CPython itself): lower of each case variant of head / body"""
+    from pyvc import ops as _ops
+    return [_ops.str_lower(z3.StringVal(v)) == z3.StringVal(v.lower()) for v in VARIANTS]
 
 
 def _end_tag_regex(run):
@@ -32,7 +52,8 @@ def _entry(run, fr):
     M[0..i)  (None if there is none).  "first </head>" / "last </body>" of the property = their value at len(M)."""
     rx = _end_tag_regex(run)
     # language fact used instead of the raw membership (proved from the translated pattern: lemma#endtag_lang)
-    fact = lambda tx: z3.Or(_tag(tx) == z3.StringVal("head"), _tag(tx) == z3.StringVal("body"))
+    # (every word of the recogniser has a case variant of head / body at [2:6]; lower() of those constants is known)
+    fact = lambda tx: z3.Or(*[z3.And(_raw_tag(tx) == z3.StringVal(v), _tag(tx) == z3.StringVal(v.lower())) for v in VARIANTS])
     Mv = regex_matches(run, rx, fr.vars["html_content"], facts=[fact])
     run.ghost["M"] = Mv
     M = Mv.t
@@ -99,12 +120,18 @@ def _lemma_endtag_lang():
     m = load_module("django_components.dependencies")
     node = m.consts["head_or_body_end_tag_re"]
     pat = ast.literal_eval(node.args[0])
+
+    def flag_value(a):
+        if isinstance(a, ast.BinOp) and isinstance(a.op, ast.BitOr):
+            return flag_value(a.left) | flag_value(a.right)
+        return int(getattr(re, a.attr))
     flags = 0
     for a in node.args[1:]:
-        flags |= getattr(re, a.attr)
+        flags |= flag_value(a)
     lang = regex_lang(("regex", pat, flags, False))
     x = z3.String("x")
-    return [z3.InRe(x, lang)], z3.Or(_tag(x) == z3.StringVal("head"), _tag(x) == z3.StringVal("body"))
+    # (the fact used in _entry is this disjunction together with CPython's lower() of the 32 constants)
+    return [z3.InRe(x, lang)] + _lower_ground_facts(), z3.Or(*[z3.And(_raw_tag(x) == z3.StringVal(v), _tag(x) == z3.StringVal(v.lower())) for v in VARIANTS])
 
 
 def _upto_bounds(step):
@@ -659,3 +686,61 @@ NOT_COVERED = [
     "validity of UTF-8 under concatenation / placeholder substitution is assumed (A-UTF8); django's HttpResponse is modelled as an object with a bytes `.content`, an immutable header and a streaming flag",
     "the str / bytes / SafeString kind of the returned value is tracked statically through encode / decode / mark_safe / + (a returned value built any other way is a checker failure, not a pass)",
 ]
+
+
+def _lemma_endtag_accepts_variants():
+    """From the property ("end tags in any order and case / whitespace variants"): the library's end-tag recogniser accepts EVERY
+    case variant of </head> / </body> with optional whitespace before `>` (HTML tag names are case-insensitive)."""
+    import ast
+    import re
+    from pyvc.regex2smt import translate
+    from pyvc.repo import load_module
+    m = load_module("django_components.dependencies")
+    node = m.consts["head_or_body_end_tag_re"]
+    pat = ast.literal_eval(node.args[0])
+
+    def flag_value(a):
+        if isinstance(a, ast.BinOp) and isinstance(a.op, ast.BitOr):
+            return flag_value(a.left) | flag_value(a.right)
+        return int(getattr(re, a.attr))
+    flags = 0
+    for a in node.args[1:]:
+        flags |= flag_value(a)
+    lang = regex_lang(("regex", pat, flags, False))
+    ref = translate(r"</(?:head|body)[ \t\n\r\f]*>", re.IGNORECASE | re.ASCII)
+    x = z3.String("x")
+    return [z3.InRe(x, ref)], z3.InRe(x, lang)
+
+
+REG.lemma("lemma#endtag_recogniser_accepts_case_and_whitespace_variants", P, _lemma_endtag_accepts_variants,
+          note="language inclusion: (?i)</(head|body)[ \\t\\n\\r\\f]*> is contained in the language of head_or_body_end_tag_re (regex2smt)")
+
+
+def _replay_endtag_variants(model, ob):
+    from django_components import dependencies as dep
+    cands = []
+    x = (model or {}).get("x", {}).get("str")
+    if x:
+        cands.append(x)
+    cands += ["</HEAD>", "</Body>", "</BODY\n>", "</head\t >"]
+    for tag in cands:
+        doc = "<html>" + tag + "</html>"
+        is_head = tag[2:6].lower() == "head"
+        got = dep._insert_js_css_to_default_locations(doc, js_content=None if is_head else "JS", css_content="CSS" if is_head else None)
+        want = "<html>" + ("CSS" if is_head else "JS") + tag + "</html>"
+        if got != want:
+            return {"confirmed": True, "function": "_insert_js_css_to_default_locations", "inputs": {"html_content": doc, "css_content" if is_head else "js_content": "CSS" if is_head else "JS"},
+                    "expected": want, "observed": repr(got)}
+    return {"confirmed": False}
+
+
+REG.replays[("lemma", "lemma#endtag_recogniser_accepts_case_and_whitespace_variants")] = _replay_endtag_variants
+
+
+def _bounded_render_deps(tier, repo):
+    from harness.bounded_render_deps import run
+    return run(repo, 3 if tier == "thorough" else 2)
+
+
+REG.bounded_check("bounded#render_dependencies_end_to_end", P, _bounded_render_deps,
+                  note="_process_dep_declarations' marker harvest is an ASSUMED stub in the deductive part: every document of <= 2 (thorough: 3) pieces out of 13 (end tags in case / whitespace variants, look-alikes, non-ASCII, '<' and '%', both placeholders, a rendered component with its marker) x (str, SafeString, bytes) x (document, fragment) goes through the real render_dependencies and is compared with the property computed by string surgery")
